@@ -542,7 +542,23 @@ def r9(ctx: Ctx) -> None:
                 bad.append((w, a))
         n += 1
         for w, a in bad:
-            ctx.violated(w.func, w.node, f"{cname}.{a} is written by the constructor only", f"{cname}.__init__", f"{w.func.qualname} changes {a} of a {cname}: the record the logger holds changes with it")
+            # a record that reached an agent's call back or the logger's handlers has been written: changing it there changes
+            # what the logger holds.  Elsewhere (a record prepared by its maker and not yet handed on) that is not known.
+            given = {x for x in w.func.params if x not in ("self",)}
+            rx = w.recv_expr
+            root = rx
+            import ast as _ast2
+
+            while isinstance(root, (_ast2.Attribute, _ast2.Subscript)):
+                root = root.value
+            from_param = isinstance(root, _ast2.Name) and root.id in given
+            if not from_param:
+                # a local alias of something given to the function (kept in a table filled from a parameter) counts as well
+                from_param = w.func.cls is not None and (p.is_subclass(w.func.cls.name, "Agent") or p.is_subclass(w.func.cls.name, "Logger"))
+            if from_param:
+                ctx.violated(w.func, w.node, f"{cname}.{a} is written by the constructor only", f"{cname}.__init__", f"{w.func.qualname} changes {a} of a {cname} it was given: the record the logger holds changes with it")
+            else:
+                ctx.unrec(w.func, w.node, f"{cname}.{a} is written by the constructor only", f"{w.func.qualname} changes {a} of a {cname}: whether that record has been handed to the logger by then is not decided")
         if not bad:
             ctx.holds(init, init.node, f"fields of {cname} are written by the constructor only", ", ".join(fields)[:120])
     ctx.require(n >= 8, "fewer log classes with constructors than confirmed by reading")
